@@ -306,7 +306,7 @@ def explore(ctx, mods, cfg, r_ops, w_ops, bound, nrandom, limit, sink, opcodes=F
     return log
   n = 0
   exhausted = True
-  gen = sched.explore_bounded(run_once, bound, limit=limit)
+  gen = sched.explore_bounded(run_once, bound, limit=limit, rng=ctx.rng)
   for forced, log in gen:
     n += 1
     sink(run_once.last, dict(cfg=cfg, r_ops=r_ops, w_ops=w_ops, forced=sorted(forced.items()), kind='bounded'))
